@@ -502,6 +502,8 @@ func (st *State) frameCheckEntry(ins ssa.Instruction, en modEntry, name string) 
 				c2 = "true"
 			}
 			switch {
+			case e2.kind == "all" && en.kind == "ghost":
+				// ghost variables are not part of "everything": they must be named
 			case e2.kind == "all":
 				alts = append(alts, c2)
 			case en.kind == "cell":
@@ -590,11 +592,9 @@ func (st *State) havocCell(addr string, T types.Type) {
 	switch u := T.Underlying().(type) {
 	case *types.Struct:
 		for i := 0; i < u.NumFields(); i++ {
-			fa := st.eng.fsub(addr, T, i)
-			if _, imm := immArray(fa, SRef); imm {
-				continue // immutable fields are outside every frame
-			}
-			st.havocCell(fa, u.Field(i).Type())
+			// an object named explicitly in a frame may be (re)initialised by the callee,
+			// immutable fields included; only unnamed effects ("everything") spare them
+			st.havocCell(st.eng.fsub(addr, T, i), u.Field(i).Type())
 		}
 		return
 	case *types.Array:
